@@ -87,7 +87,18 @@ def _c06_viol(res):
     return v
 
 
+def _c16_viol(res):
+    v = []
+    for r in res["pipeline"]["verdicts"]:
+        if r["bad"]:
+            v.append(dict(stage="pipeline", id=r["id"], what=[list(b)[:3] for b in r["bad"]][:3], kind="pipeline:" + r["via"]))
+    if not res["pipeline"]["mc_pipeline_ok"]:
+        v.append(dict(stage="pipeline", id="MC_Pipeline", what=[["pipeline_model_not_total"]], kind="mc"))
+    return v
+
+
 PROPS = {
+    "C16": dict(stages=["pipeline"], viol=_c16_viol),
     "C06": dict(stages=["lex"], viol=_c06_viol),
     "C05": dict(stages=["tables", "resolve", "prec"], viol=_c05_viol),
     "C01": dict(stages=["tables", "lr", "mci_lr"],
